@@ -1,4 +1,5 @@
 import GomlVerif.Model.Anf
+import GomlVerif.Model.Sem
 /-
 The fragment on which `Props/C09.lean` proves `anf_preserves`, as executable (`Bool`)
 predicates so that the driver can report how many REAL Lift functions lie inside it.
@@ -8,7 +9,7 @@ ANF flattens nested `let`s: `let x = (let y = v in a) in b` becomes
 introduced for an operand is in scope of every later operand.  That is only sound when the
 names whose scope is widened are not mentioned where the scope is widened to:
 
-* `ws e`       — no `let`-bound name of an earlier operand occurs in a later operand / body;
+* `frag e`     — no `let`-bound name of an operand occurs in another operand / the body;
 * `tmpFresh`   — no temporary `t<m>` that `anf` hands out for `e` occurs in `e`
                  (C19's `local_vs_temp_disjoint`; false e.g. for a program with a function `t2`).
 
@@ -90,37 +91,47 @@ end
 def disj (xs ys : List String) : Bool := xs.all (fun x => !ys.contains x)
 
 mutual
-/-- widening the scope of the `let`-bound names of an operand over the later operands captures nothing -/
-def ws : Expr → Bool
+/-- the fragment of `anf_preserves`: a Lift expression (`isLift`) in which
+    * widening the scope of the `let`-bound names of an operand over the other operands of the
+      same node captures nothing (`disj … …`; operands that are plain variables are read after
+      the later operands have been named, hence both directions),
+    * a nullary constructor carries the name of its enum type (so that it is the same value
+      as the tag it becomes). -/
+def frag : Expr → Bool
   | .var _ _ => true
   | .prim _ => true
-  | .tag _ _ => true
-  | .constr _ _ args => wsList args
-  | .tuple _ items => wsList items
-  | .array _ items => wsList items
+  | .tag _ _ => false
+  | .constr c ty args =>
+    (match c, args with
+     | .enum tn _ _, [] => Sem.tagTyName ty == tn
+     | _, _ => true) && fragList args
+  | .tuple _ items => fragList items
+  | .array _ items => fragList items
   | .closure _ _ _ => false
-  | .letE _ v b => ws v && ws b && disj (bnd v) (names b)
-  | .matchE _ s arms d => ws s && wsArms arms && wsDflt d && disj (bnd s) (namesArms arms ++ namesDflt d)
-  | .ite c t e => ws c && ws t && ws e && disj (bnd c) (names t ++ names e)
-  | .while c b => ws c && ws b
-  | .go e => ws e
-  | .cget _ _ _ e => ws e
-  | .un _ _ e => ws e
-  | .bin _ _ l r => ws l && ws r && disj (bnd l) (names r)
-  | .call _ f args => ws f && wsList args && disj (bnd f) (namesList args)
-  | .toDyn _ _ _ e => ws e
-  | .dynCall _ _ _ r args => ws r && wsList args && disj (bnd r) (namesList args)
+  | .letE _ v b => frag v && frag b && disj (bnd v) (names b)
+  | .matchE _ s arms d =>
+    frag s && fragArms arms && fragDflt d && disj (bnd s) (namesArms arms ++ namesDflt d)
+  | .ite c t e => frag c && frag t && frag e && disj (bnd c) (names t ++ names e)
+  | .while c b => frag c && frag b
+  | .go e => frag e
+  | .cget _ _ _ e => frag e
+  | .un _ _ e => frag e
+  | .bin _ _ l r => frag l && frag r && disj (bnd l) (names r) && disj (bnd r) (names l)
+  | .call _ f args => frag f && fragList args && disj (bnd f) (namesList args) && disj (bndList args) (names f)
+  | .toDyn _ _ _ e => frag e
+  | .dynCall _ _ _ r args =>
+    frag r && fragList args && disj (bnd r) (namesList args) && disj (bndList args) (names r)
   | .traitCall _ _ _ _ _ => false
-  | .proj _ _ e => ws e
-def wsList : List Expr → Bool
+  | .proj _ _ e => frag e
+def fragList : List Expr → Bool
   | [] => true
-  | e :: rest => ws e && wsList rest && disj (bnd e) (namesList rest)
-def wsArms : List Arm → Bool
+  | e :: rest => frag e && fragList rest && disj (bnd e) (namesList rest) && disj (bndList rest) (names e)
+def fragArms : List Arm → Bool
   | [] => true
-  | .mk _ body :: rest => ws body && wsArms rest
-def wsDflt : Option Expr → Bool
+  | .mk lhs body :: rest => isArmHead lhs && frag body && fragArms rest
+def fragDflt : Option Expr → Bool
   | none => true
-  | some e => ws e
+  | some e => frag e
 end
 
 /-- none of the temporaries `t<n₀>` … `t<n₁-1>` occurs in `e` -/
@@ -129,7 +140,7 @@ def tmpFresh (n₀ n₁ : Nat) (e : Expr) : Bool :=
 
 /-- the hypothesis of `anf_preserves` for a function body ANF-transformed from counter `n` -/
 def inAnfFragment (e : Expr) (n : Nat) : Bool :=
-  isLift e && ws e && tmpFresh n (anf e n ret).2 e
+  frag e && tmpFresh n (anf e n ret).2 e
 
 /-- per function of a file (the counter is threaded as in `anf_file`) -/
 def anfFragFlags : List Fn → Nat → List Bool
